@@ -819,7 +819,9 @@ class TranscriptInterval(AbstractFeatureInterval):
             blocks = [[x.start, x.end] for x in self.relative_blocks]
             num_blocks = self.chunk_relative_location.num_blocks
         block_sizes = [end - start for start, end in blocks]
-        block_starts = [start - self.start for start, _ in blocks]
+        # block starts are relative to the start column of the same coordinate system
+        first_start = self.start if chromosome_relative_coordinates else self.chunk_relative_start
+        block_starts = [start - first_start for start, _ in blocks]
 
         if chromosome_relative_coordinates:
             start = self.start
